@@ -110,18 +110,12 @@ Theorem C15_shell_blanks_only : forall flag raws raws',
 Proof. exact shell_blanks_only. Qed.
 Print Assumptions C15_shell_blanks_only.
 
-(* fixSpaceAfterVarname: FALSE of the faithful model without the guard "not commented out" *)
-Definition C15_spaceAfterVarname_blanks_only_full : Prop := spaceAfterVarname_blanks_only_full.
-Theorem C15_spaceAfterVarname_blanks_only_refuted : ~ C15_spaceAfterVarname_blanks_only_full.
-Proof. exact spaceAfterVarname_blanks_only_refuted. Qed.
-Print Assumptions C15_spaceAfterVarname_blanks_only_refuted.
-
-Theorem C15_spaceAfterVarname_blanks_only_partial : forall raws vn sp op p0 raws',
-  blankb (lc p0) = true ->                        (* guard: the assignment is not commented out *)
+(* fixSpaceAfterVarname (as of /repo 42e6bf1 the leading comment marker is kept) *)
+Theorem C15_spaceAfterVarname_blanks_only : forall raws vn sp op p0 raws',
   blankb (sbv p0) = true -> blankb sp = true -> vo p0 = vn ++ sp ++ op ->
   fixSpaceAfterVarname raws vn sp op p0 = Ok raws' -> Forall2 blank_eq raws raws'.
-Proof. exact spaceAfterVarname_blanks_only_partial. Qed.
-Print Assumptions C15_spaceAfterVarname_blanks_only_partial.
+Proof. exact spaceAfterVarname_blanks_only. Qed.
+Print Assumptions C15_spaceAfterVarname_blanks_only.
 
 (* ===== paragraphs made only of single-line assignments ===== *)
 
@@ -181,5 +175,5 @@ Proof.
 Qed.
 
 Example C15_witness_commented :
-  fixSpaceAfterVarname sav_raws [86]%N [32]%N [61]%N sav_parts = Ok [[86; 61; 9; 118]%N].
-Proof. exact spaceAfterVarname_drops_comment. Qed.
+  fixSpaceAfterVarname sav_raws [86]%N [32]%N [61]%N sav_parts = Ok [[35; 86; 61; 9; 118]%N].
+Proof. exact spaceAfterVarname_keeps_comment. Qed.
